@@ -359,7 +359,7 @@ class MCIntegrator:
                 t_prev = t_guess
                 norm_old = norm2_guess
 
-        if tries >= self.options['norm_steps']:
+        else:
             raise RuntimeError(
                 "Could not find the collapse time within desired tolerance. "
                 "Increase accuracy of the ODE solver or lower the tolerance "
